@@ -573,4 +573,219 @@ Proof.
   destruct (h_iter_free v_fixed s1 hi1) as [[s2 ns2]|] eqn:F; simpl in H0; try discriminate. inversion H0; subst.
   eapply cov_free_other; eauto.
 Qed.
+
+(* ---------- the ghost records next to a run ---------- *)
+Definition ghost := list (nat * cov).
+Definition gmap (f : cov -> cov) (g : ghost) : ghost := map (fun q => (fst q, f (snd q))) g.
+Definition gset (it : nat) (f : cov -> cov) (g : ghost) : ghost :=
+  map (fun q => if Nat.eqb (fst q) it then (it, f (snd q)) else q) g.
+Definition gremove (it : nat) (g : ghost) : ghost := filter (fun q => negb (Nat.eqb (fst q) it)) g.
+Fixpoint glookup (g : ghost) (it : nat) : option cov :=
+  match g with [] => None | (i, c) :: t => if Nat.eqb i it then Some c else glookup t it end.
+
+Definition g_step (s : hstate) (o : op) (x : out) (g : ghost) : ghost :=
+  if negb (h_alive s) then g else
+  match o, x with
+  | Put k _, _ => gmap (fun c => c_set_ins c (negb (key_in k (lkeys s)))) g
+  | Rm k, _ => gmap (fun c => c_rm c k) g
+  | Destroy, _ => []
+  | IterCreate it _, ONone => (it, {| c_stable := lkeys s; c_seen := []; c_ins := false |}) :: g
+  | IterNext it, ONext (Some (k, _)) => gset it (fun c => c_see c k) g
+  | IterFree it, ONone => gremove it g
+  | _, _ => g
+  end.
+
+(* the two coverage clauses, checked at every iter_next *)
+Definition g_check (s : hstate) (o : op) (x : out) (g : ghost) : Prop :=
+  h_alive s = true ->
+  match o, x with
+  | IterNext it, ONext (Some (k, _)) => forall c, glookup g it = Some c -> c_ins c = false -> ~ In k (c_seen c)
+  | IterNext it, ONext None => forall c, glookup g it = Some c -> forall k', In k' (c_stable c) -> In k' (c_seen c)
+  | _, _ => True
+  end.
+
+Definition CovAll (s : hstate) (g : ghost) : Prop :=
+  Forall2 (fun p q => fst p = fst q /\ CovOne s (snd p) (snd q)) (h_iters s) g.
+
+Lemma forall2_map_r : forall {A B} (R R' : A -> B -> Prop) (G : B -> B) l g,
+  Forall2 R l g -> (forall p q, In p l -> R p q -> R' p (G q)) -> Forall2 R' l (map G g).
+Proof.
+  induction 1; simpl; intros. constructor. constructor.
+  - apply H1; auto.
+  - apply IHForall2. intros. apply H1; auto.
+Qed.
+
+Lemma cov_ctl : forall s s' hi c, h_heap s' = h_heap s -> h_buckets s' = h_buckets s -> CovOne s hi c -> CovOne s' hi c.
+Proof.
+  intros s s' hi c H1 H2 [A B C].
+  assert (LI : live_ids s' = live_ids s) by (unfold live_ids, linked; rewrite H1, H2; auto).
+  assert (RL : Rl s' hi = Rl s hi) by (unfold Rl, nb, cands_hi, bucket; rewrite H2; auto).
+  constructor.
+  - intros x. rewrite LI, RL, H1. apply A.
+  - intros I x. rewrite RL, H1. apply B; auto.
+  - intros k. unfold lkeys. rewrite LI, H1. apply C.
+Qed.
+
+Lemma covall_others : forall s s' g (f : cov -> cov), CovAll s g -> h_iters s' = h_iters s ->
+  (forall it hi c, In (it, hi) (h_iters s) -> CovOne s hi c -> CovOne s' hi (f c)) -> CovAll s' (gmap f g).
+Proof.
+  intros. unfold CovAll, gmap. rewrite H0. eapply forall2_map_r. exact H.
+  intros [it hi] [it2 c] Hin [Q1 Q2]. simpl in *. split; auto. eapply H1; eauto.
+Qed.
+
+Lemma gmap_id : forall g, gmap (fun c => c) g = g.
+Proof. unfold gmap. induction g as [|[i c] g]; simpl; auto. rewrite IHg. auto. Qed.
+
+Lemma in_its : forall s it hi, In (it, hi) (h_iters s) -> In hi (its s).
+Proof. intros. unfold its. apply in_map_iff. exists (it, hi). auto. Qed.
+
+Lemma forall2_fst : forall s l g, Forall2 (fun (p : nat * hiter) (q : nat * cov) => fst p = fst q /\ CovOne s (snd p) (snd q)) l g -> map fst l = map fst g.
+Proof. induction 1; simpl; auto. destruct H. congruence. Qed.
+
+Lemma glookup_split : forall g1 it c g2, ~ In it (map fst g1) -> glookup (g1 ++ (it, c) :: g2) it = Some c.
+Proof.
+  induction g1 as [|[i c0] g1]; simpl; intros. rewrite Nat.eqb_refl. auto.
+  destruct (Nat.eqb i it) eqn:E. apply Nat.eqb_eq in E. subst. exfalso. apply H. left; auto. apply IHg1. intro. apply H. right; auto.
+Qed.
+
+Lemma gset_split : forall g1 g2 it c (f : cov -> cov), ~ In it (map fst g1) -> ~ In it (map fst g2) ->
+  gset it f (g1 ++ (it, c) :: g2) = g1 ++ (it, f c) :: g2 /\ gremove it (g1 ++ (it, c) :: g2) = g1 ++ g2.
+Proof.
+  intros. unfold gset, gremove. rewrite map_app, filter_app. simpl. rewrite Nat.eqb_refl. simpl.
+  assert (A : forall g, ~ In it (map fst g) ->
+              map (fun q : nat * cov => if Nat.eqb (fst q) it then (it, f (snd q)) else q) g = g /\
+              filter (fun q : nat * cov => negb (Nat.eqb (fst q) it)) g = g).
+  { induction g as [|[i c0] g]; simpl; intros; auto. destruct (Nat.eqb i it) eqn:E.
+    - apply Nat.eqb_eq in E. subst. exfalso. apply H1. left; auto.
+    - simpl. destruct IHg as [I1 I2]. intro. apply H1. right; auto. rewrite I1, I2. auto. }
+  destruct (A g1 H) as [A1 A2]. destruct (A g2 H0) as [B1 B2]. rewrite A1, A2, B1, B2. auto.
+Qed.
+
+Lemma forall2_impl_in : forall {A B} (R R' : A -> B -> Prop) l g,
+  (forall p q, In p l -> In q g -> R p q -> R' p q) -> Forall2 R l g -> Forall2 R' l g.
+Proof.
+  intros A B R R' l g H F. induction F; constructor.
+  - apply H; auto. left; auto. left; auto.
+  - apply IHF. intros. apply H; auto. right; auto. right; auto.
+Qed.
+
+Lemma forall2_cons_inv : forall {A B} (R : A -> B -> Prop) a l g, Forall2 R (a :: l) g -> exists b g', g = b :: g' /\ R a b /\ Forall2 R l g'.
+Proof. intros. inversion H; subst. eauto. Qed.
+
+Lemma rl_start : forall s y, In y (linked s) -> In y (Rl s {| hi_node := None; hi_bucket := 0 |}).
+Proof.
+  intros s y Hy. unfold Rl, cands_hi, bucket. cbn [hi_node hi_bucket]. destruct (Nat.ltb 0 (nb s)) eqn:NB.
+  - apply Nat.ltb_lt in NB. unfold linked in Hy. rewrite (concat_split (h_buckets s) 0) in Hy by exact NB. exact Hy.
+  - apply Nat.ltb_ge in NB. unfold nb in NB. unfold linked in Hy. destruct (h_buckets s); simpl in *. contradiction. lia.
+Qed.
+
+Section Step.
+Variable rc : Z * Z * Z.
+
+Lemma covall_transfer : forall s s' g, CovAll s g -> h_iters s' = h_iters s ->
+  (forall it hi c, In (it, hi) (h_iters s) -> CovOne s hi c -> CovOne s' hi c) -> CovAll s' g.
+Proof. intros. rewrite <- (gmap_id g). eapply covall_others; eauto. Qed.
+
+Theorem cov_step : forall s o s' x ns g, Top s -> GoodQ hf s -> CovAll s g ->
+  h_step v_fixed hf rc s o = Ok (s', x, ns) ->
+  g_check s o x g /\ (h_alive s' = true -> CovAll s' (g_step s o x g)).
+Proof.
+  intros s o s' x ns g T Q CA E. destruct rc as [[e1 e2] e3]. unfold h_step in E. unfold g_check, g_step.
+  rewrite (q_alive _ _ Q) in *. simpl in E. cbn [negb].
+  generalize (t_good _ T). intro G.
+  destruct o.
+  - (* Put *)
+    destruct (h_put v_fixed hf s k v) as [[s1 ns1]|] eqn:E1; simpl in E; inversion E; subst. split; auto. intros _.
+    destruct (put_safe hf s (its s) k v G) as [s2 [ns2 [E2 [_ [C1 _]]]]]. rewrite E1 in E2. inversion E2; subst.
+    eapply covall_others; eauto. intros. eapply cov_put; eauto.
+  - destruct (h_get v_fixed hf s k); simpl in E; inversion E; subst. split; auto.
+  - (* Rm *)
+    destruct (h_rm v_fixed hf s k) as [[[s1 b1] ns1]|] eqn:E1; simpl in E; inversion E; subst. split; auto. intros _.
+    destruct (rm_safe hf s (its s) k G) as [s2 [b2 [ns2 [E2 [_ [C1 _]]]]]]. rewrite E1 in E2. inversion E2; subst.
+    eapply covall_others; eauto. intros. eapply cov_rm; eauto. eapply in_its; eauto.
+  - inversion E; subst. split; auto.
+  - (* Foreach *)
+    destruct (h_foreach v_fixed s stop) as [[[s1 l1] ns1]|] eqn:E1; simpl in E; inversion E; subst. split; auto. intros _.
+    generalize (foreach_safe s (its s) stop G). rewrite E1. intros [_ [C1 _]].
+    eapply covall_transfer; eauto. intros. eapply cov_foreach; eauto. eapply in_its; eauto.
+  - destruct (h_notify_add v_fixed hf e1 e2 e3 s k fn ev ud) as [[s1 z]|] eqn:E1; simpl in E; inversion E; subst. split; auto. intros _.
+    destruct (notify_add_safe hf e1 e2 e3 s (its s) k fn ev ud G) as [s2 [z2 [E2 [_ [C1 _]]]]]. rewrite E1 in E2. inversion E2; subst.
+    eapply covall_transfer; eauto. intros. eapply cov_notify_add; eauto.
+  - destruct (h_notify_del v_fixed hf e2 s k fn ev ud) as [[s1 z]|] eqn:E1; simpl in E; inversion E; subst. split; auto. intros _.
+    destruct (notify_del_safe hf e2 s (its s) k fn ev ud G) as [s2 [z2 [E2 [_ [C1 _]]]]]. rewrite E1 in E2. inversion E2; subst.
+    eapply covall_transfer; eauto. intros. eapply cov_notify_del; eauto.
+  - (* Destroy *)
+    unfold h_destroy in E. destruct (destroy_nodes s (concat (h_buckets s))) as [[s1 ns1]|]; simpl in E; inversion E; subst. split; auto.
+    simpl. intro; discriminate.
+  - (* IterCreate *)
+    destruct (existsb (Nat.eqb it) (h_used s)) eqn:U; inversion E; subst. { split; auto. } split; auto. intros _.
+    unfold CovAll. simpl. constructor.
+    + simpl. split; auto. constructor; simpl.
+      * intros y Hy _. left. apply live_linked in Hy. destruct Hy as [Hy _]. apply rl_start. exact Hy.
+      * intros _ y _ _ [].
+      * auto.
+    + eapply forall2_impl_in. 2: exact CA. intros [i1 h1] [i2 c2] _ _ [Q1 Q2]. split; auto. apply (cov_ctl s); auto.
+  - (* IterNext *)
+    destruct (iter_lookup (h_iters s) it) as [hi|] eqn:L. 2:{ inversion E; subst. split; auto. }
+    destruct (h_iter_next v_fixed s hi) as [[[[s1 hi1] r] ns1]|] eqn:E1; simpl in E; inversion E; subst. clear E.
+    destruct (iter_split _ _ _ L) as [l1 [l2 [Q1 Q2]]].
+    assert (Q3 : ~ In it (map fst l2)).
+    { generalize (t_ids _ T). rewrite Q1, map_app. simpl. intro ND. apply nodup_app_r in ND. inversion ND; auto. }
+    unfold CovAll in CA. rewrite Q1 in CA. apply Forall2_app_inv_l in CA. destruct CA as [g1 [g2' [CA1 [CA2 GE]]]].
+    destruct (forall2_cons_inv _ _ _ _ CA2) as [[it' c] [g2 [GE2 [[CQ1 CQ2] CA3]]]]. simpl in CQ1, CQ2. subst it' g2'. subst g.
+    assert (F1 : map fst l1 = map fst g1) by (eapply forall2_fst; eauto).
+    assert (F2 : map fst l2 = map fst g2) by (eapply forall2_fst; eauto).
+    assert (GL : glookup (g1 ++ (it, c) :: g2) it = Some c) by (apply glookup_split; rewrite <- F1; auto).
+    set (Prest := map snd l1 ++ map snd l2).
+    assert (GP : GoodP s (hi :: Prest)).
+    { eapply goodp_perm. 2: exact G. unfold its. rewrite Q1, map_app. simpl. apply Permutation_sym. apply Permutation_middle. }
+    generalize (cov_next_own s Prest hi c s1 hi1 r ns GP Q CQ2 E1). intro OWN.
+    destruct (iter_next_safe s Prest hi GP) as [s0 [hi0 [r0 [ns0 [E0 [_ [[C1 _] _]]]]]]]. rewrite E1 in E0. inversion E0; subst s0 hi0 r0 ns0. clear E0.
+    assert (OTH : forall (l : list (nat * hiter)) (g : list (nat * cov)), Forall2 (fun (p : nat * hiter) (q : nat * cov) => fst p = fst q /\ CovOne s (snd p) (snd q)) l g -> (forall p, In p l -> In (snd p) Prest) ->
+                  Forall2 (fun (p : nat * hiter) (q : nat * cov) => fst p = fst q /\ CovOne (set_iters s1 (l1 ++ (it, hi1) :: l2)) (snd p) (snd q)) l g).
+    { intros l g0 FA HP. eapply forall2_impl_in. 2: exact FA. intros [i2 h2] [j2 c2] I1 _ [R1 R2]. split; auto. simpl in *.
+      apply (cov_ctl s1); auto. eapply cov_next_other; eauto. apply (HP (i2, h2)); auto. }
+    assert (O1 := OTH l1 g1 CA1). assert (O2 := OTH l2 g2 CA3).
+    destruct (iter_set_split l1 l2 it hi hi1 Q2 Q3) as [S1 _].
+    destruct r as [[k v]|].
+    + destruct OWN as [W1 W2]. split.
+      * intros _ c0 GL0. rewrite GL in GL0. inversion GL0; subst c0. auto.
+      * intros _. destruct (gset_split g1 g2 it c (fun c0 => c_see c0 k)) as [GS _]. rewrite <- F1; auto. rewrite <- F2; auto.
+        rewrite GS. unfold CovAll. simpl. rewrite C1, Q1, S1. apply Forall2_app.
+        { apply O1. intros p Hp. unfold Prest. apply in_or_app. left. apply in_map. auto. }
+        constructor.
+        { simpl. split; auto. apply (cov_ctl s1); auto. }
+        { apply O2. intros p Hp. unfold Prest. apply in_or_app. right. apply in_map. auto. }
+    + destruct OWN as [W1 W2]. split.
+      * intros _ c0 GL0. rewrite GL in GL0. inversion GL0; subst c0. auto.
+      * intros _. unfold CovAll. simpl. rewrite C1, Q1, S1. apply Forall2_app.
+        { apply O1. intros p Hp. unfold Prest. apply in_or_app. left. apply in_map. auto. }
+        constructor.
+        { simpl. split; auto. apply (cov_ctl s1); auto. }
+        { apply O2. intros p Hp. unfold Prest. apply in_or_app. right. apply in_map. auto. }
+  - (* IterFree *)
+    destruct (iter_lookup (h_iters s) it) as [hi|] eqn:L. 2:{ inversion E; subst. split; auto. }
+    destruct (h_iter_free v_fixed s hi) as [[s1 ns1]|] eqn:E1; simpl in E; inversion E; subst. clear E. split; auto. intros _.
+    destruct (iter_split _ _ _ L) as [l1 [l2 [Q1 Q2]]].
+    assert (Q3 : ~ In it (map fst l2)).
+    { generalize (t_ids _ T). rewrite Q1, map_app. simpl. intro ND. apply nodup_app_r in ND. inversion ND; auto. }
+    unfold CovAll in CA. rewrite Q1 in CA. apply Forall2_app_inv_l in CA. destruct CA as [g1 [g2' [CA1 [CA2 GE]]]].
+    destruct (forall2_cons_inv _ _ _ _ CA2) as [[it' c] [g2 [GE2 [[CQ1 CQ2] CA3]]]]. simpl in CQ1, CQ2. subst it' g2'. subst g.
+    assert (F1 : map fst l1 = map fst g1) by (eapply forall2_fst; eauto).
+    assert (F2 : map fst l2 = map fst g2) by (eapply forall2_fst; eauto).
+    set (Prest := map snd l1 ++ map snd l2).
+    assert (GP : GoodP s (hi :: Prest)).
+    { eapply goodp_perm. 2: exact G. unfold its. rewrite Q1, map_app. simpl. apply Permutation_sym. apply Permutation_middle. }
+    destruct (iter_free_safe s Prest hi GP) as [s0 [ns0 [E0 [_ [C1 _]]]]]. rewrite E1 in E0. inversion E0; subst s0 ns0. clear E0.
+    assert (OTH : forall (l : list (nat * hiter)) (g : list (nat * cov)), Forall2 (fun (p : nat * hiter) (q : nat * cov) => fst p = fst q /\ CovOne s (snd p) (snd q)) l g -> (forall p, In p l -> In (snd p) Prest) ->
+                  Forall2 (fun (p : nat * hiter) (q : nat * cov) => fst p = fst q /\ CovOne (set_iters s1 (l1 ++ l2)) (snd p) (snd q)) l g).
+    { intros l g0 FA HP. eapply forall2_impl_in. 2: exact FA. intros [i2 h2] [j2 c2] I1 _ [R1 R2]. split; auto. simpl in *.
+      apply (cov_ctl s1); auto. eapply cov_free_other; eauto. apply (HP (i2, h2)); auto. }
+    destruct (iter_set_split l1 l2 it hi hi Q2 Q3) as [_ S2].
+    destruct (gset_split g1 g2 it c (fun c0 => c0)) as [_ GR]. rewrite <- F1; auto. rewrite <- F2; auto.
+    rewrite GR. unfold CovAll. simpl. rewrite C1, Q1, S2. apply Forall2_app.
+    + apply OTH; auto. intros p Hp. unfold Prest. apply in_or_app. left. apply in_map. auto.
+    + apply OTH; auto. intros p Hp. unfold Prest. apply in_or_app. right. apply in_map. auto.
+Qed.
+End Step.
 End Cov.
